@@ -591,6 +591,15 @@ def wiring_obligations(ctx, rule):
                        "cleared, so a build that is rejected because a node belongs to "
                        "another model leaves that node (and the other model) unchanged",
            claim_first, detail=f"set_model@{i_set} clear@{i_clear}", stmt="claim before edit")
+    # ... and nothing in the constructor RELEASES nodes (on a rejected build the ones it
+    # did not claim belong to the other, live model)
+    rel = [(t, nd) for t, nd, _ in calls if t[0] == "call" and t[1][0] == "a"
+           and t[1][2] in ("_unset_model", "_unset_var")]
+    ctx.ob(rule, init, "the constructor never releases a node (no _unset_model in any of its "
+                       "paths, error handlers included): a rejected build cannot unfreeze the "
+                       "nodes of the model it collided with", not rel,
+           detail="; ".join(short(t, 60) for t, _ in rel[:2]), node=rel[0][1] if rel else None,
+           stmt="constructor releases nodes " + "; ".join(pretty(t)[:50] for t, _ in rel[:2]))
     ctx.ob(rule, init, "all outputs are cleared (and the model registered) for every "
                            "node before input._add_output(node) is called for every input "
                            "of every node", ok,
